@@ -90,12 +90,15 @@ func zzNewPipeConnH(nc *zzPipe, handler HandlerFunc, maxSize uint32) *Conn {
 func zzNewPipeConnMon(nc *zzPipe, mon InactivityMonitor) *Conn { return zzNewPipeConnX(nc, nil, 1152, mon) }
 
 var zzPipeRequestMonitor RequestMonitorFunc // optional request monitor for the next connection created
+var zzPipePoolSize uint32                  // pool size of the next connection created (0: no recycling)
+var zzPipeLimits [2]int64                  // total / per-endpoint parallel-request limits of the next connection (0: 4)
 
 func zzNewPipeConnX(nc *zzPipe, handler HandlerFunc, maxSize uint32, mon InactivityMonitor) *Conn {
 	cfg := Config{}
 	cfg.Ctx = context.Background()
 	cfg.MaxMessageSize = maxSize
-	cfg.MessagePool = pool.New(0, 1024)
+	cfg.MessagePool = pool.New(zzPipePoolSize, 1024)
+	zzPipePoolSize = 0
 	cfg.Errors = func(error) {}
 	n := 0
 	cfg.GetToken = func() (message.Token, error) { n++; return message.Token{0xEE, byte(n)}, nil }
@@ -105,6 +108,10 @@ func zzNewPipeConnX(nc *zzPipe, handler HandlerFunc, maxSize uint32, mon Inactiv
 	}
 	cfg.LimitClientParallelRequests = 4
 	cfg.LimitClientEndpointParallelRequests = 4
+	if zzPipeLimits[0] != 0 || zzPipeLimits[1] != 0 {
+		cfg.LimitClientParallelRequests, cfg.LimitClientEndpointParallelRequests = zzPipeLimits[0], zzPipeLimits[1]
+		zzPipeLimits = [2]int64{}
+	}
 	cfg.ReceivedMessageQueueSize = 2
 	cfg.ConnectionCacheSize = 64
 	cfg.DisableTCPSignalMessageCSM = true
